@@ -289,6 +289,19 @@ def managed_scenarios(seed: int, n: int) -> list[dict[str, Any]]:
 
 def managed_stage(ctx: Any, rep: Any, label: str) -> None:
     from concurrent.futures import ProcessPoolExecutor
+    # the wake-up chain first (Managed.tla: the server's container, the observers' condition, condition_chain, the two managers, with asyncio's
+    # Lock / Condition as they behave): no update is lost, no deadlock, every interleaving; two witnesses must fail
+    from vf import tlc
+    from vf.evidence import MachineryFailure
+    r = tlc.run('Managed', 'MC_Managed.cfg', workers=8, timeout=1800)
+    rep.add_tlc('MC_Managed', r)
+    if not r.ok:
+        rep.violation(f'{label}: Managed.tla: {r.violated}', files={'tlc.out': r.out[-50000:]})
+    for wcfg in ('MC_Managed_unlocked.cfg', 'MC_Managed_latechain.cfg'):
+        w = tlc.run('Managed', wcfg, workers=4, timeout=600)
+        rep.add_tlc(f'{wcfg[:-4]} (witness)', w)
+        if [v for _k, v in w.violated] != ['AtRestLatest']:
+            raise MachineryFailure(f'the witness configuration {wcfg} should violate AtRestLatest, got {w.violated}')
     scs = managed_scenarios(ctx.seed, 20 if ctx.quick else 400)
     with ProcessPoolExecutor(16) as ex:
         runs = list(ex.map(managed_case, scs, chunksize=2))
